@@ -239,7 +239,9 @@ def run(rep, repo, tier):
 
 
 def check_helper(rep, repo, helper, N, r1='C16.R1', r3='C16.R3', r6='C16.R6'):
-    """R1 + R6 on the ordering helper with a symbolic list of (arguments, criterion) tuples."""
+    """R1 + R3 + R6 on the ordering helper with a symbolic list of (arguments, criterion) tuples.  Shapes are normalised:
+    sentinel 0 or None, compaction by index or by element, position/extras split inline or in a helper (case split on
+    isinstance(arguments, list)), count as a counter or as len(<present criteria>)."""
     it = Interp(repo)
     try:
         effs, rv = it.run(helper, {'opts': S('opts')})
@@ -248,80 +250,98 @@ def check_helper(rep, repo, helper, N, r1='C16.R1', r3='C16.R3', r6='C16.R6'):
         return
     where = helper.where
     if not (rv[0] == 'tuple' and len(rv[1]) == 2):
-        # accepted alternative: sorted(present, key=position)
         rep.inconclusive(r1, where, 'ordering helper returns (ordered list, count)', got=show(rv)[:200])
         return
     kept, cnt = rv[1]
-    # count = number of present criteria
+
+    def present_forms(b):
+        a = I(b, C(0))
+        return [NOT(CMP('Eq', a, NONE)), CMP('NotEq', a, NONE), NOT(CMP('Is', a, NONE)), CMP('IsNot', a, NONE)]
+
+    def unwrap(t):
+        if t[0] == 'cat':
+            parts = [p for p in t[1] if p != ('list', ())]
+            if len(parts) == 1:
+                return parts[0]
+        return t
+
+    # ---- count = number of present criteria ----
     okc = False
-    if cnt[0] == 'bin' and cnt[1] == 'Add' and cnt[2] == C(0) and cnt[3][0] == 'sum':
-        ch, v = cnt[3][1], cnt[3][2]
+    c = cnt
+    if c[0] == 'bin' and c[1] == 'Add' and c[2] == C(0) and c[3][0] == 'sum':
+        ch, v = c[3][1], c[3][2]
         if len(ch) == 1 and v == C(1) and ch[0][0][3] == S('opts'):
-            b = ch[0][0]
-            g = ch[0][1]
-            okc = g in (NOT(CMP('Eq', I(b, C(0)), NONE)), CMP('NotEq', I(b, C(0)), NONE), NOT(CMP('Is', I(b, C(0)), NONE)), CMP('IsNot', I(b, C(0)), NONE))
+            okc = ch[0][1] in present_forms(ch[0][0])
+    elif c[0] == 'call' and c[1] == S('len') and len(c[2]) == 1:
+        inner = unwrap(c[2][0])
+        if inner[0] == 'comp' and len(inner[1]) == 1 and inner[1][0][0][3] == S('opts'):
+            okc = inner[1][0][1] in present_forms(inner[1][0][0])
     rep.check(okc, r3, where, 'the returned count is the number of criteria whose flag is present (not None)',
-              got=show(cnt)[:200], want='sum(1 for arguments, opt in opts if arguments is not None)', construct='present-count')
-    # compaction: [X[i] for i in range(len(X)) if X[i] != sentinel]
-    ok = False
-    scatter = None
-    if kept[0] in ('comp', 'cat'):
-        comp = kept
-        if kept[0] == 'cat':
-            parts = [p for p in kept[1] if p != ('list', ())]
-            comp = parts[0] if len(parts) == 1 else kept
-        if comp[0] == 'comp' and len(comp[1]) == 1:
-            b, g = comp[1][0]
-            dom = b[3]
-            if dom[0] == 'call' and dom[1] == S('range') and len(dom[2]) == 1 and dom[2][0][0] == 'call' and dom[2][0][1] == S('len'):
-                X = dom[2][0][2][0]
-                elem = I(X, b)
-                sent = None
-                if g[0] == 'not' and g[1][0] == 'cmp' and g[1][1] == 'Eq' and g[1][2] == elem:
-                    sent = g[1][3]
-                elif g[0] == 'cmp' and g[1] == 'NotEq' and g[2] == elem:
-                    sent = g[3]
-                if sent is not None and comp[2] == elem:
-                    ok = True
-                    scatter = (X, sent)
-    if not ok:
+              got=show(cnt)[:200], want='number of (arguments, opt) in opts with arguments is not None', construct='present-count')
+    # ---- compaction ----
+    comp = unwrap(kept)
+    X = sent = None
+    if comp[0] == 'comp' and len(comp[1]) == 1:
+        b, g = comp[1][0]
+        dom = b[3]
+        def sentinel_of(g, elem):
+            if g[0] == 'not' and g[1][0] == 'cmp' and g[1][1] in ('Eq', 'Is') and g[1][2] == elem:
+                return g[1][3]
+            if g[0] == 'cmp' and g[1] in ('NotEq', 'IsNot') and g[2] == elem:
+                return g[3]
+            return None
+        if dom[0] == 'call' and dom[1] == S('range') and len(dom[2]) == 1 and dom[2][0][0] == 'call' and dom[2][0][1] == S('len'):
+            X0 = dom[2][0][2][0]
+            sv = sentinel_of(g, I(X0, b))
+            if sv is not None and comp[2] == I(X0, b):
+                X, sent = X0, sv
+        else:
+            sv = sentinel_of(g, b)
+            if sv is not None and comp[2] == b:
+                X, sent = dom, sv
+    if X is None:
         rep.fail(r1, where, 'compaction visits the slots in ascending index order and keeps the non-sentinel ones',
-                 got=show(kept)[:240], want='[slots[i] for i in range(len(slots)) if slots[i] != sentinel]', construct='compaction form')
+                 got=show(kept)[:240], want='[slot for slot in slots if slot is not the sentinel]', construct='compaction form')
         return
-    rep.ok(r1, where, 'compaction visits slots ascending and keeps non-sentinel ones', got='[X[i] for i in range(len(X)) if X[i] != %s]' % show(scatter[1]))
-    X, sent = scatter
+    rep.ok(r1, where, 'compaction visits slots ascending and keeps non-sentinel ones', got='sentinel %s' % show(sent))
     if X[0] != 'accum':
         rep.fail(r1, where, 'slots are filled by a scatter over the criteria', got=show(X)[:200], construct='scatter form')
         return
     pre, entries = X[1], X[2]
     want_pre = [BIN('Mult', CALL(S('len'), [S('opts')]), ('list', (sent,))), BIN('Mult', ('list', (sent,)), CALL(S('len'), [S('opts')]))]
     rep.check(pre in want_pre, r1, where, 'one sentinel slot per criterion', got=show(pre), want='len(opts) * [%s]' % show(sent), construct='slot array size')
-    seen_list = seen_scalar = False
+    rep.check(sent in (C(0), NONE), r1, where, 'the sentinel cannot be confused with a stored (criterion, extras) tuple', got=show(sent), construct='sentinel value')
+    # ---- scatter entries, case split on the kind of the flag value ----
+    cases = {'list': [], 'scalar': []}
     for op, idx, val, ch in entries:
+        if len(ch) != 1 or ch[0][0][3] != S('opts'):
+            rep.inconclusive(r1, where, 'scatter ranges over the criteria', got=[show(b[3]) for b, _ in ch])
+            return
         b, g = ch[0]
+        args_ = I(b, C(0))
+        isl = CALL(S('isinstance'), [args_, S('list')])
+        for case, const in (('list', TRUE), ('scalar', FALSE)):
+            f = lambda t: const if t == isl else None
+            g2 = simp(subst(g, f))
+            if g2 == FALSE:
+                continue
+            cases[case].append((op, simp(subst(idx, f)), simp(subst(val, f)), g2, b))
+    for case in ('list', 'scalar'):
+        es = cases[case]
+        if len(es) != 1:
+            rep.fail(r1, where, 'exactly one store handles a %s flag value' % case, got='%d stores' % len(es), construct='scatter stores for %s values: %d' % (case, len(es)))
+            continue
+        op, idx, val, g2, b = es[0]
         args_, opt = I(b, C(0)), I(b, C(1))
-        conj = list(g[2]) if (g[0] == 'bool' and g[1] == 'and') else [g]
-        is_list = CALL(S('isinstance'), [args_, S('list')]) in conj
-        is_scalar = NOT(CALL(S('isinstance'), [args_, S('list')])) in conj
-        present = any(c in conj for c in (NOT(CMP('Eq', args_, NONE)), CMP('NotEq', args_, NONE), NOT(CMP('Is', args_, NONE)), CMP('IsNot', args_, NONE)))
-        pos = simp(I(args_, C(0))) if is_list else args_
+        pos = simp(I(args_, C(0))) if case == 'list' else args_
         rep.check(op == 'setidx' and idx == BIN('Sub', pos, C(1)), r1, where,
-                  'a %s criterion is stored at slot position - 1' % ('list-valued' if is_list else 'scalar'), got='%s[%s]' % (op, show(idx)),
-                  want='setidx[%s - 1]' % show(pos), construct='scatter index %s' % show(idx).replace(show(b), 'it'))
-        rep.check(present and (is_list or is_scalar), r1, where, 'the scatter covers exactly the present criteria of its kind', got=[show(c) for c in conj],
-                  construct='scatter guard')
-        if is_list:
-            seen_list = True
-            want = ('tuple', (opt, ('slice', args_, C(1), NONE)))
-            rep.check(val == want, r6, where, 'list-valued flag keeps (criterion, arguments[1:])', got=show(val).replace(show(b), 'it'),
-                      want='(opt, arguments[1:])', construct='extras of list flag: ' + show(val).replace(show(b), 'it'))
-        elif is_scalar:
-            seen_scalar = True
-            want = ('tuple', (opt, NONE))
-            rep.check(val == want, r6, where, 'scalar flag gives (criterion, None)', got=show(val).replace(show(b), 'it'), want='(opt, None)',
-                      construct='extras of scalar flag: ' + show(val).replace(show(b), 'it'))
-    rep.check(seen_list and seen_scalar, r1, where, 'both list-valued and scalar flags are scattered', got='list=%s scalar=%s' % (seen_list, seen_scalar),
-              construct='scatter kinds')
+                  'a %s criterion is stored at slot position - 1' % ('list-valued' if case == 'list' else 'scalar'), got='%s[%s]' % (op, show(idx).replace(show(b), 'it')),
+                  want='setidx[%s - 1]' % show(pos).replace(show(b), 'it'), construct='scatter index %s (%s)' % (show(idx).replace(show(b), 'it'), case))
+        rep.check(g2 in present_forms(b), r1, where, 'the scatter covers exactly the present criteria', got=show(g2).replace(show(b), 'it'), want='arguments is not None',
+                  construct='scatter guard %s' % show(g2).replace(show(b), 'it'))
+        want = ('tuple', (opt, ('slice', args_, C(1), NONE))) if case == 'list' else ('tuple', (opt, NONE))
+        rep.check(val == want, r6, where, ('list-valued flag keeps (criterion, arguments[1:])' if case == 'list' else 'scalar flag gives (criterion, None)'),
+                  got=show(val).replace(show(b), 'it'), want=show(want).replace(show(b), 'it'), construct='extras of %s flag: %s' % (case, show(val).replace(show(b), 'it')))
 
 
 def check_info_lines(rep, repo, tier):
